@@ -6,50 +6,17 @@
 From Coq Require Import List Arith NArith Bool Lia.
 Import ListNotations.
 Require Import SR.Base.Res SR.Spec.Layout SR.Model.Layout SR.Proofs.LayoutP.
-
-Definition no_targets (ks : items) : bool := match redef_targets ks with [] => true | _ => false end.
-
-(* x belongs to a REDEFINES union among its siblings: it redefines, or a LATER sibling redefines it *)
-Definition member (x : item) (xs : items) : bool :=
-  match item_redef x with
-  | Some _ => true
-  | None => existsb (N.eqb (item_id x)) (redef_targets xs)
-  end.
-
-(* the counters an item makes available to what follows it *)
-Fixpoint new_counters (x : item) : list id :=
-  match x with
-  | Elem i _ Once _ => [i]
-  | Group _ Once _ ks => kids_counters ks
-  | _ => []
-  end
-with kids_counters (ks : items) : list id :=
-  match ks with
-  | INil => []
-  | ICons x xs => (if member x xs then [] else new_counters x) ++ kids_counters xs
-  end.
-
-Section Odo.
-  Variable e : env.
-
-  Fixpoint wfo (avail : list id) (x : item) : bool :=
-    match x with
-    | Elem _ _ (Odo c) None => existsb (N.eqb c) avail
-    | Elem _ _ (Odo _) (Some _) => false
-    | Elem _ _ _ _ => true
-    | Group _ (Odo c) None ks => existsb (N.eqb c) avail && wf_kids e ks && no_targets ks
-    | Group _ (Odo _) (Some _) _ => false
-    | Group _ (Times _) _ ks => wf_kids e ks && no_targets ks
-    | Group _ Once _ ks => wfo_kids avail ks && unions_ok e [] ks
-    end
-  with wfo_kids (avail : list id) (ks : items) : bool :=
-    match ks with
-    | INil => true
-    | ICons x xs =>
-        if member x xs then wf e x && wfo_kids avail xs
-        else wfo avail x && wfo_kids (avail ++ new_counters x) xs
-    end.
-End Odo.
+(* The definitions of this development that occur in theorem statements (Props/) live in Spec/OdoWf.v (audit item G1).
+   The abbreviations keep the qualified names LayoutOdoP.name of other files resolving; they are parsing-only aliases. *)
+Require Export SR.Spec.OdoWf.
+Notation no_targets := SR.Spec.OdoWf.no_targets (only parsing).
+Notation member := SR.Spec.OdoWf.member (only parsing).
+Notation new_counters := SR.Spec.OdoWf.new_counters (only parsing).
+Notation kids_counters := SR.Spec.OdoWf.kids_counters (only parsing).
+Notation wfo := SR.Spec.OdoWf.wfo (only parsing).
+Notation wfo_kids := SR.Spec.OdoWf.wfo_kids (only parsing).
+Notation Holds := SR.Spec.OdoWf.Holds (only parsing).
+Notation HoldsKids := SR.Spec.OdoWf.HoldsKids (only parsing).
 
 Lemma incl_nil_any {T} (l : list T) : incl [] l.
 Proof. intros a []. Qed.
@@ -127,21 +94,8 @@ Section MainOdo.
   Notation Good := (Good B dcount r e).
   Notation GoodKids := (GoodKids B dcount r e).
   Notation W := (W B dcount r e).
-
-  (* the record carries the count vector at the place of every potential counter *)
-  Fixpoint Holds (x : item) (st : nat) {struct x} : Prop :=
-    match x with
-    | Elem i sz Once _ => dcount (slice r st (st + sz)) = e i
-    | Group _ Once _ ks => HoldsKids (kid_starts e ks st []) ks
-    | _ => True
-    end
-  with HoldsKids (starts : list (id * nat)) (ks : items) {struct ks} : Prop :=
-    match ks with
-    | INil => True
-    | ICons x xs =>
-        (if member x xs then True else exists o, assoc (item_id x) starts = Some o /\ Holds x o)
-        /\ HoldsKids starts xs
-    end.
+  Notation Holds := (Holds B dcount r e).
+  Notation HoldsKids := (HoldsKids B dcount r e).
 
   Lemma HoldsKids_starts starts starts' ks :
     HoldsKids starts ks -> (forall x, in_kids x ks -> assoc (item_id x) starts' = assoc (item_id x) starts) ->
